@@ -13,6 +13,8 @@ import Flamego.Driver.Inject
 import Flamego.Driver.Static
 import Flamego.Driver.Access
 import Flamego.Driver.Render
+import Flamego.Driver.Chain
+import Flamego.Driver.Noop
 open Flamego Flamego.Driver
 
 def dispatch (o : Oracle) (kind : String) (args : List String) (body : List (List String)) : List String :=
@@ -25,6 +27,8 @@ def dispatch (o : Oracle) (kind : String) (args : List String) (body : List (Lis
   | "static" => Static.session args body
   | "access" => Access.session o args body
   | "render" => Render.session args body
+  | "chain" => Chain.session args body
+  | "noop" => Noop.session args body
   | _ => "bad-kind" :: body.map (fun _ => "bad-kind")
 
 def dispatchQueries (kind : String) (args : List String) (body : List (List String)) : List String :=
